@@ -1,12 +1,123 @@
 import GridVerif.Model.Proto
 import GridVerif.Model.Elem
+import GridVerif.Model.LocalGrid
 
+/-
+  Driver of C10.  One line = one object with its whole history:
+
+    C10.hist <cls> <oned 0|1> <dim> <points: mat> <centre: 0 | 1 vec> <weights: vec>
+             <domain: 0 | 1 lo hi> <nops> <op>*
+
+    op :=  q s <x> <r>  |  q v <vec> <r>           get_localgrid(center, radius)
+        |  sp <oned 0|1> <mat>                     grid.points = value
+        |  sw <vec>                                grid.weights = value
+        |  gi i <int> | gi n <int> | gi s <a|N> <b|N> <c|N> | gi a <ints: vec> | gi m <0/1: vec>
+
+  Answer: `ok <out> | <out> | …` with
+    out := L <indices: vec> <points: mat> <weights: vec> | G <cls> <points: mat> <weights: vec> <dom>
+         | D | E <error>
+  or the error tag of the constructor.
+-/
 namespace GridVerif.Driver.C10
-open GridVerif.Proto
+open GridVerif.Proto GridVerif.LocalGrid
 
-/-- Line-protocol handler of property C10: `C10.<op> args…` ↦ one answer line
-(`none` = malformed, answered `bad-op`). -/
+abbrev P (α : Type) := List String → Option (α × List String)
+
+def pTok (p : String → Option α) : P α
+  | [] => none
+  | t :: ts => (p t).map (·, ts)
+
+def pBool : P Bool := pTok fun s => if s = "1" then some true else if s = "0" then some false else none
+
+def pCls : String → Option Cls
+  | "grid" => some .grid | "oned" => some .oned | "atom" => some .atom
+  | "mol" => some .mol | "rect" => some .rect | "loc" => some .loc | _ => none
+
+def sCls : Cls → String
+  | .grid => "grid" | .oned => "oned" | .atom => "atom" | .mol => "mol" | .rect => "rect" | .loc => "loc"
+
+def sErr : Err → String
+  | .valueError => "value-error" | .typeError => "type-error"
+  | .indexError => "index-error" | .attributeError => "attribute-error"
+
+def pRadius : P (Radius Float) := pTok fun s => (pFloat s).map fun r =>
+  if r.isNaN then .nan else if r == Float.ofScientific 1 false 0 / Float.ofNat 0 then .inf else .fin r
+
+def pOptInt : P (Option Int) := pTok fun s => if s = "N" then some none else (pInt s).map some
+
+def pOp : P (Op Float)
+  | "q" :: "s" :: ts => do
+    let (x, ts) ← pTok pFloat ts
+    let (r, ts) ← pRadius ts
+    pure (.query (.scalar x) r, ts)
+  | "q" :: "v" :: ts => do
+    let (xs, ts) ← pVec pFloat ts
+    let (r, ts) ← pRadius ts
+    pure (.query (.vector xs) r, ts)
+  | "sp" :: ts => do
+    let (oned, ts) ← pBool ts
+    match ts with
+    | _ :: c :: _ =>
+      let dim ← pNat c
+      let (m, ts) ← pMat pFloat ts
+      pure (.setPoints oned dim m, ts)
+    | _ => none
+  | "sw" :: ts => do
+    let (w, ts) ← pVec pFloat ts
+    pure (.setWeights w, ts)
+  | "gi" :: "i" :: ts => do let (i, ts) ← pTok pInt ts; pure (.getItem (.int i), ts)
+  | "gi" :: "n" :: ts => do let (i, ts) ← pTok pInt ts; pure (.getItem (.npInt i), ts)
+  | "gi" :: "s" :: ts => do
+    let (a, ts) ← pOptInt ts
+    let (b, ts) ← pOptInt ts
+    let (c, ts) ← pOptInt ts
+    pure (.getItem (.slice a b c), ts)
+  | "gi" :: "a" :: ts => do let (is, ts) ← pVec pInt ts; pure (.getItem (.array is), ts)
+  | "gi" :: "m" :: ts => do
+    let (bs, ts) ← pVec (fun s => if s = "1" then some true else if s = "0" then some false else none) ts
+    pure (.getItem (.mask bs), ts)
+  | _ => none
+
+def pOps : Nat → List String → Option (List (Op Float) × List String)
+  | 0, ts => some ([], ts)
+  | n + 1, ts => do
+    let (op, ts) ← pOp ts
+    let (ops, ts) ← pOps n ts
+    pure (op :: ops, ts)
+
+def sDom : Option (Float × Float) → String
+  | none => "0"
+  | some (lo, hi) => s!"1 {sFloat lo} {sFloat hi}"
+
+def sOut : Out Float → String
+  | .localGrid idx p w => s!"L {sNats idx} {sMat sFloat p} {sFloats w}"
+  | .grid c p w d => s!"G {sCls c} {sMat sFloat p} {sFloats w} {sDom d}"
+  | .done => "D"
+  | .error e => s!"E {sErr e}"
+
 def handle : List String → Option String
+  | "C10.hist" :: cls :: ts => do
+    let cls ← pCls cls
+    let (oned, ts) ← pBool ts
+    let (dim, ts) ← pTok pNat ts
+    let (pts, ts) ← pMat pFloat ts
+    let (hasC, ts) ← pBool ts
+    let (centre, ts) ← (if hasC then (pVec pFloat ts).map fun (c, ts) => (some c, ts) else some (none, ts))
+    let (w, ts) ← pVec pFloat ts
+    let (hasD, ts) ← pBool ts
+    let (dom, ts) ← (if hasD then do
+        let (lo, ts) ← pTok pFloat ts
+        let (hi, ts) ← pTok pFloat ts
+        pure (some (lo, hi), ts)
+      else some (none, ts))
+    let (nops, ts) ← pTok pNat ts
+    let (ops, ts) ← pOps nops ts
+    if ts ≠ [] then none else
+    match init cls oned dim pts centre w dom with
+    | .error e => pure (sErr e)
+    | .ok s =>
+      let (_, outs) := run s ops
+      pure ("ok " ++ String.intercalate " | " (outs.map sOut))
   | _ => none
 
 end GridVerif.Driver.C10
